@@ -2,6 +2,7 @@ package main
 
 import (
 	"encoding/json"
+	"go/types"
 	"flag"
 	"fmt"
 	"os"
@@ -23,6 +24,9 @@ type CheckCfg struct {
 	NoSweep  []string `json:"nosweep"`  // functions verified against contracts without safety obligations
 	Reset    []ResetCfg `json:"reset"`
 	Commute  []string `json:"commute"`  // functions whose map-range loops get commutation obligations
+	CommuteAll bool   `json:"commute_all"` // every non-test function of the repository that ranges over a map
+	CommuteSkip map[string]string `json:"commute_skip"` // function -> reason (not on a report path)
+	OutputOrderOK map[string]string `json:"output_order_ok"` // function -> why text emitted inside a map range may follow the map order
 	Floor    int      `json:"floor"`    // minimum number of obligations (vacuity guard)
 	QuickSec int      `json:"quick_sec"`
 	ThoroughSec int   `json:"thorough_sec"`
@@ -156,11 +160,36 @@ func checkMain(args []string) int {
 		}
 		results = append(results, r)
 	}
+	if cfg.CommuteAll {
+		for _, fn := range w.allRepoFuncs() {
+			if !inRepo(fn) || fn.Blocks == nil || strings.HasSuffix(w.Prog.Fset.Position(fn.Pos()).Filename, "_test.go") {
+				continue
+			}
+			has := false
+			for _, b := range fn.Blocks {
+				for _, in := range b.Instrs {
+					if r, ok := in.(*ssa.Range); ok {
+						if _, isMap := r.X.Type().Underlying().(*types.Map); isMap {
+							has = true
+						}
+					}
+				}
+			}
+			if _, skip := cfg.CommuteSkip[fnFull(fn)]; has && !skip {
+				cfg.Commute = append(cfg.Commute, fn.Pkg.Pkg.Path()+"."+funcKey(fn))
+			}
+		}
+		sort.Strings(cfg.Commute)
+	}
+	outputOrderOK = cfg.OutputOrderOK
 	for _, n := range cfg.Commute {
 		fn, err := w.find(n)
 		if err != nil {
 			broken = append(broken, err.Error())
 			continue
+		}
+		if os.Getenv("VERIF_DEBUG") != "" {
+			fmt.Fprintf(os.Stderr, "[%.1fs] commute %s\n", time.Since(t0).Seconds(), fnFull(fn))
 		}
 		results = append(results, commuteObligations(w, ss, fn)...)
 	}
